@@ -30,7 +30,7 @@ from hpstatic.terms import (sym, intern, show, subterms, calls_in, NONE, num, kw
                             FALSE, TRUE)
 from hpstatic.xrnorm import atom_rewrite
 from . import c01
-from .common import const_list, norm_cond, beyond_guards
+from .common import const_list, norm_cond, beyond_guards, split_value_ite
 
 MUTATION_TARGETS = {'holopy/core/io/io.py': ['pack_attrs', 'unpack_attrs', 'push', 'mean', 'std', 'load_average', 'save', 'load_image', 'load'], 'holopy/core/metadata.py': ['update_metadata', 'make_coords', 'data_grid', 'to_vector'], 'holopy/core/utils.py': ['updated']}
 
@@ -281,8 +281,8 @@ def attrs_tables(check, prog):
     check.require(ign is not None, 'U2-reader-table', 'unpack_attrs ignore list',
                   'literal list of side-channel keys', loc2)
     ign = ign or []
-    st2 = [e for e in it2.effects if e['kind'] == 'setitem' and
-           level(e['base']) == 0 and e['key'][0] != 'const']
+    st2 = split_value_ite([e for e in it2.effects if e['kind'] == 'setitem' and
+                           level(e['base']) == 0 and e['key'][0] != 'const'])
     kinds = set()
     for e in st2:
         v = e['value']
@@ -312,12 +312,20 @@ def attrs_tables(check, prog):
     iom = prog.module('holopy.core.io.io')
     loadfd = prog.func(IO + 'load')
     read_in_load = set()
+    # the locals that hold the parsed image description
+    parsed = set()
+    for n in ast.walk(loadfd):
+        if isinstance(n, ast.Assign) and isinstance(n.value, ast.Call) and \
+                ast.unparse(n.value.func).endswith('safe_load'):
+            parsed |= set(t.id for t in n.targets if isinstance(t, ast.Name))
+    check.floor('locals of load() holding the parsed description', len(parsed), 1)
     for n in ast.walk(loadfd):
         if isinstance(n, ast.Subscript) and isinstance(n.value, ast.Name) and \
-                n.value.id == 'meta' and isinstance(n.slice, ast.Constant):
+                n.value.id in parsed and isinstance(n.slice, ast.Constant):
             read_in_load.add(n.slice.value)
         if isinstance(n, ast.Compare) and isinstance(n.left, ast.Constant) and \
-                isinstance(n.comparators[0], ast.Name) and n.comparators[0].id == 'meta':
+                isinstance(n.comparators[0], ast.Name) and \
+                n.comparators[0].id in parsed:
             read_in_load.add(n.left.value)
     check.floor('side-channel keys written', len(side_written), 4)
     for k in sorted(side_written):
@@ -839,7 +847,7 @@ def tables_exact(check, prog):
     ok = len(early) == 1 and norm_cond(early[0].cond) == [(empty, True)]
     check.require(ok, 'U2-reader-table', 'unpack_attrs empty attrs',
                   'an empty mapping is returned as is -- and only an empty one', loc)
-    st = [e for e in it.effects if e['kind'] == 'setitem']
+    st = split_value_ite([e for e in it.effects if e['kind'] == 'setitem'])
     rows = {}
     for e in st:
         v = e['value']
